@@ -31,6 +31,7 @@
      "did0" did=0 (open): the initiator announces "no DID" in the ATR_REQ but still sends a DID
             byte 0 in every PDU (`self.did is not None`); the target holds did=None and its DID
             filter ignores everything.  Variant "did0": the target treats DID 0 as "no DID".
+     "ipni0"/"tpni0"  re-activation of the same objects, see Reactivate (target side: open finding)
    The defective branches of "ack", "atn" and "miu" CAN NOW GO (the fixes are in /repo); they
    are kept only so that a regression is reported by OneFaultOk / MiuOk / FrameFits under the
    canonical key of the original finding instead of a bare conformance mismatch.
@@ -46,7 +47,8 @@ CONSTANTS Cfgs,           \* configurations [lrI, lrT, did, tdid, did0, nad, miu
           MaxFaults,      \* faulted frames per conversation                (model checking bound)
           MaxStepFaults,  \* faulted frames per protocol step               (model checking bound)
           Vs,             \* admitted variant sets, e.g. {{}} = code as is, {{"ack","atn"}} = repaired
-          WithRelease     \* explore deactivate()
+          WithRelease,    \* explore deactivate()
+          MaxSess         \* activations of the same two objects                           (model checking bound)
 
 VARIABLES cf,             \* configuration record (constant during a behaviour)
           i,              \* initiator
@@ -56,10 +58,11 @@ VARIABLES cf,             \* configuration record (constant during a behaviour)
           nI, nT,         \* payloads handed to Initiator.exchange / Target.exchange so far
           viol,           \* delivery violations observed (history)
           faults, stepFaults,
+          sess,           \* number of the session (activation) the two objects are in
           last,           \* what the target did with the last frame it heard (for witnesses)
           now             \* ticks elapsed (history; compared with the virtual clock in trace validation)
 
-vars == <<cf, i, t, slot, pendI, pendT, nI, nT, viol, faults, stepFaults, last, now>>
+vars == <<cf, i, t, slot, pendI, pendT, nI, nT, viol, faults, stepFaults, sess, last, now>>
 
 B(b) == IF b THEN 1 ELSE 0
 Min2(a, b) == IF a < b THEN a ELSE b
@@ -183,20 +186,23 @@ TRecv(y, f, c, v) ==
             out |-> Fr("TI", f.t, 0, FALSE, y.did, FALSE, 0, 0, 0), did |-> "release"]
       [] f.t = "ATN" -> [t |-> y, out |-> Fr("TI", "ATN", 0, FALSE, y.did, FALSE, 0, 0, 0), did |-> "atn"]
       [] f.t = "NAK" -> [t |-> y, out |-> y.res, did |-> "nak"]
-      [] f.pni = y.pni -> [t |-> y, out |-> y.res, did |-> "dup"]
+      \* a request with the PNI of the previous one is a retransmission.  Before the first request of a
+      \* session self.pni is what the previous session left (variant "tpni0": activate() resets it)
+      [] f.pni = (IF y.ph = "first" /\ "tpni0" \notin v THEN y.stale ELSE y.pni) ->
+           [t |-> y, out |-> y.res, did |-> "dup"]
       [] OTHER -> LET r == TNewReq(y, f, c) IN [t |-> r.t, out |-> r.out, did |-> "new"]
 
 \* ------------------------------------------------------------------ initial state
 I0 == [st |-> "idle", pni |-> 0, id |-> 0, n |-> 0, off |-> 0, ph |-> "tx", mode |-> "req", try |-> 0,
        rem |-> 0, D |-> 0, rx |-> <<>>, err |-> "", rel |-> "RLS", fresh |-> FALSE]
 T0(c) == [st |-> "wait", pni |-> NoPni, res |-> NoFrame, ph |-> "first", id |-> 0, n |-> 0, off |-> 0,
-          rx |-> <<>>, did |-> c.tdid]
+          rx |-> <<>>, did |-> c.tdid, stale |-> NoPni]
 
 InitWith(c) ==
     /\ cf = c
     /\ i = I0 /\ t = T0(c) /\ slot = NoFrame
     /\ pendI = <<>> /\ pendT = <<>> /\ nI = 0 /\ nT = 0 /\ viol = {}
-    /\ faults = 0 /\ stepFaults = 0 /\ last = "-" /\ now = 0
+    /\ faults = 0 /\ stepFaults = 0 /\ last = "-" /\ now = 0 /\ sess = 1
 
 Init == \E c \in Cfgs : InitWith(c)
 
@@ -212,7 +218,7 @@ ICall(n, D) ==
     /\ pendI' = Append(pendI, [id |-> nI + 1, n |-> n])
     /\ nI' = nI + 1
     /\ stepFaults' = 0
-    /\ UNCHANGED <<cf, t, pendT, nT, viol, faults, last, now>>
+    /\ UNCHANGED <<sess, cf, t, pendT, nT, viol, faults, last, now>>
 
 \* What happens when frame fr crosses the air with fate f: the receiver's reaction, and the
 \* initiator's if nothing comes back.  Result [i, t, last, cost]; the next frame on the air follows
@@ -247,7 +253,7 @@ Fate(fr, f, v) ==
        /\ now' = now + o.cost
        /\ faults' = faults + nf
        /\ stepFaults' = IF o.i.fresh THEN 0 ELSE stepFaults + nf
-    /\ UNCHANGED <<cf, pendI, pendT, nI, nT, viol>>
+    /\ UNCHANGED <<sess, cf, pendI, pendT, nI, nT, viol>>
 
 \* the frame the implementation puts on the air for the predicted frame `fr`: the same, except that
 \* the ATN request of an initiator using a DID carries the DID only in variant "atn"
@@ -262,7 +268,7 @@ TRet ==
        /\ pendI' = Deliver(pendI, p)
        /\ viol' = IF DeliverBad(pendI, p) THEN viol \cup {"TRet"} ELSE viol
     /\ t' = [t EXCEPT !.st = "app", !.rx = <<>>]
-    /\ UNCHANGED <<cf, i, slot, pendT, nI, nT, faults, stepFaults, last, now>>
+    /\ UNCHANGED <<sess, cf, i, slot, pendT, nI, nT, faults, stepFaults, last, now>>
 
 \* Target.exchange(payload of n bytes)
 TCall(n) ==
@@ -272,7 +278,7 @@ TCall(n) ==
        /\ slot' = TInf(y, cf)
     /\ pendT' = Append(pendT, [id |-> nT + 1, n |-> n])
     /\ nT' = nT + 1
-    /\ UNCHANGED <<cf, i, pendI, nI, viol, faults, stepFaults, last, now>>
+    /\ UNCHANGED <<sess, cf, i, pendI, nI, viol, faults, stepFaults, last, now>>
 
 \* Initiator.exchange() returns
 IRet ==
@@ -281,7 +287,7 @@ IRet ==
        /\ pendT' = Deliver(pendT, p)
        /\ viol' = IF DeliverBad(pendT, p) THEN viol \cup {"IRet"} ELSE viol
     /\ i' = [i EXCEPT !.st = "idle", !.rx = <<>>]
-    /\ UNCHANGED <<cf, t, slot, pendI, nI, nT, faults, stepFaults, last, now>>
+    /\ UNCHANGED <<sess, cf, t, slot, pendI, nI, nT, faults, stepFaults, last, now>>
 
 \* Initiator.deactivate(release): one RLS_REQ / DSL_REQ, no retry
 Release(kind) ==
@@ -289,7 +295,21 @@ Release(kind) ==
     /\ i.st = "idle" /\ slot = NoFrame /\ t.st = "wait"
     /\ i' = [i EXCEPT !.st = "rel", !.rel = kind]
     /\ slot' = ICur([i EXCEPT !.st = "rel", !.rel = kind], cf)
-    /\ UNCHANGED <<cf, t, pendI, pendT, nI, nT, viol, faults, stepFaults, last, now>>
+    /\ UNCHANGED <<sess, cf, t, pendI, pendT, nI, nT, viol, faults, stepFaults, last, now>>
+
+\* Initiator.activate() / Target.activate() on the same two objects after the previous session ended (release,
+\* deselect or loss of the link): all per-session state starts afresh.  Variants: "ipni0" the initiator's PNI
+\* is reset by activate() (as is: yes, dep.py Initiator.activate), "tpni0" the target's PNI is reset (as is: no,
+\* Target.pni is only set in __init__ and by the first exchange() *after* the duplicate test: C04 finding)
+Reactivate(c, v) ==
+    /\ sess < MaxSess
+    /\ i.st \in {"idle", "end"} /\ slot = NoFrame /\ t.st \in {"wait", "none"}
+    /\ cf' = c
+    /\ i' = [I0 EXCEPT !.pni = IF "ipni0" \in v THEN 0 ELSE i.pni]
+    /\ t' = [T0(c) EXCEPT !.stale = t.pni]
+    /\ slot' = NoFrame /\ pendI' = <<>> /\ pendT' = <<>>
+    /\ stepFaults' = 0 /\ last' = "-" /\ now' = 0 /\ sess' = sess + 1
+    /\ UNCHANGED <<nI, nT, viol, faults>>
 
 Fates == {"deliver", "lose", "corrupt"}
 Next ==
@@ -302,6 +322,7 @@ Next ==
        \/ \E n \in Lens : TCall(n)
        \/ IRet
        \/ \E k \in {"RLS", "DSL"} : Release(k)
+       \/ Reactivate(cf, v)
 
 Spec == Init /\ [][Next]_vars
 
@@ -332,6 +353,12 @@ OneFaultOk == OneFaultOkP(i, t, stepFaults, cf)
 TargetOkP(y) == y.st # "err"
 TargetOk == TargetOkP(t)
 
+\* a session starts with packet number 0 on both sides: the first information PDU of a session carries PNI 0
+\* and the target takes it for a new request, whatever the previous session of the same objects left behind
+FirstPniP(y, s, la) == /\ (y.ph = "first" /\ s.dir = "IT" /\ s.t = "INF" => s.pni = 0)
+                       /\ ~(y.ph = "first" /\ la = "dup")
+FirstPni == FirstPniP(t, slot, last)
+
 PniInSyncP(x, y) == (x.st = "idle" /\ y.st = "wait" /\ y.ph # "first") => x.pni = (y.pni + 1) % 4
 PniInSync == PniInSyncP(i, t)
 
@@ -345,7 +372,8 @@ W_Wrap      == ~(i.st = "idle" /\ nI >= 1 /\ i.pni = 0)
 W_ErrTimeout == ~(i.st = "err" /\ i.err = "Timeout")
 W_ErrProto  == ~(i.st = "err" /\ i.err = "Protocol")
 W_Release   == ~(t.st = "none")
+W_Again     == ~(sess = 2 /\ i.st = "idle" /\ nI >= 2 /\ pendI = <<>> /\ t.stale = 0)   \* second session after PNI 0
 W_Absorbed  == ~(i.st = "idle" /\ faults >= 2 /\ nI >= 2 /\ pendI = <<>> /\ pendT = <<>>)
 
-View == <<cf, i, t, slot, pendI, pendT, viol, faults, stepFaults, last>>
+View == <<cf, i, t, slot, pendI, pendT, viol, faults, stepFaults, sess, last>>
 =============================================================================
